@@ -1,7 +1,7 @@
 """C17: R-HASH, R-STATIC, R-AMBIENT."""
 import re
 
-from .. import audit
+from .. import audit, backend
 from ..core import RuleResult
 from ..mir import Fn, Flow, op_local, op_root, is_passthrough, place_fields
 
@@ -460,7 +460,7 @@ def rule_static(ctx):
                             touchers.setdefault(key, s["sp"])
     for key, sp in touchers.items():
         base = key.split("::{")[0]
-        if base == "axcut2backend::fresh_labels::fresh_label":
+        if base in backend.label_counter_fns(fx):
             res.inst("COUNTER-writer:" + key, sp["file"], sp["line"], "ok")
         else:
             res.inst("COUNTER-writer:" + key, sp["file"], sp["line"], "violation")
@@ -472,7 +472,7 @@ def rule_static(ctx):
         fn = None
         for bi, b in enumerate(f["blocks"]):
             t = b["term"]
-            if t["k"] == "call" and (t.get("callee") == "axcut2backend::fresh_labels::fresh_label"):
+            if t["k"] == "call" and (t.get("resolved_key") or t.get("callee_key")) in backend.label_counter_fns(fx):
                 fn = fn or Fn(f)
                 if bi not in fn.reach:
                     continue
